@@ -84,6 +84,26 @@ theorem substitute_in_configured_text (cfg : Cfg) (text : Subnet → Str) (hcfg 
   obtain ⟨⟨A, k, hw⟩, he⟩ := hcfg sub hmem
   exact ⟨x, sub, hx, hs, hwt, A, k, hw, (contains_iff_written _ _ _ _ _ _ A k hw he x).mp hc⟩
 
+/-- **32 host bits** (`0.0.0.0/0`, `x/0`, `::ffff:x/96`): the entry has `2^32` hosts — a count that does not fit the
+`uint32` the unrepaired `getRandUint32IPv4` kept it in (it wrapped to 0 and `crypto/rand.Int` panicked) — the draw is
+never refused, and as a 32-bit number the substituted address is the host draw itself: every IPv4 address can be
+handed out, none is invented by a wrap-around.  (`substitute_in_written_subnet` and `contains_iff_written` hold for
+this case too: they never assumed `k < 32`.) -/
+theorem full_range_substitute (s : Str) (w p : Nat) (pf : Option (Int × String × Int)) (l : TLabel) (sub : Subnet)
+    (A : Nat) (hw : written s = some (A, 32)) (he : entry s w p pf l = some sub) (d : Nat) :
+    sub.hosts = 2 ^ 32 ∧ ∃ ip, randAddr sub d = some ip ∧ ip % 2 ^ 32 = d % 2 ^ 32 := by
+  obtain ⟨sub', he', hv, hb, hh, _⟩ := configured_text_entry s A 32 hw w p pf l
+  rw [he] at he'; cases he'
+  refine ⟨hh, sub.base + d % sub.hosts, by simp [randAddr, hv], ?_⟩
+  rw [hb, hh, Nat.mul_comm, Nat.mul_add_mod, Nat.mod_mod]
+
+example : written "10.1.2.3/0".toList = some (167838211, 32) := by decide +kernel
+example : written "::ffff:10.1.2.3/96".toList = some (167838211, 32) := by decide +kernel
+example : entry "10.1.2.3/0".toList 1 443 none .unset =
+    some { isV4 := true, base := 0, ones := 0, weight := 1, port := 443 } := by decide +kernel
+example : entry "::ffff:10.1.2.3/96".toList 1 443 none .unset =
+    some { isV4 := true, base := 0, ones := 0, weight := 1, port := 443 } := by decide +kernel
+
 /-! ### the hypotheses are satisfiable, and the masking is what the theorems rest on -/
 
 /-- `203.0.113.200/24` (host bits set): decoded to the network `203.0.113.0`, 256 hosts -/
